@@ -68,11 +68,20 @@ def build_coal(pg, spec, kw):
     if p == 'mig':
         d = pg.Demography(pop_sizes={'a': kw['N'], 'b': 1.0}, migration_rates={('a', 'b'): kw['m'], ('b', 'a'): 0.5})
         return pg.Coalescent(n={'a': n - 1, 'b': 1}, demography=d, parallelize=False, pbar=False)
+    if p == 'rec':
+        # two loci, free recombination rate (the shared state space of get_coal must not keep the rate of another parameter set)
+        return pg.Coalescent(n=n, loci=pg.LocusConfig(n=2, recombination_rate=kw['r']), parallelize=False, pbar=False)
+    if p == 'rec-size':
+        d = pg.Demography(pop_sizes={'pop_0': kw['N']})
+        return pg.Coalescent(n=n, loci=pg.LocusConfig(n=2, recombination_rate=kw['r']), demography=d, parallelize=False, pbar=False)
+    if p == 'alpha':
+        return pg.Coalescent(n=n, model=pg.BetaCoalescent(alpha=kw['alpha']), parallelize=False, pbar=False)
     raise ValueError(p)
 
 
 def param_names(spec):
-    return {'size': ['N'], 'epoch': ['N1'], 'two-epoch': ['N0', 'N1'], 'mig': ['N', 'm']}[spec['problem']]
+    return {'size': ['N'], 'epoch': ['N1'], 'two-epoch': ['N0', 'N1'], 'mig': ['N', 'm'], 'rec': ['r'], 'rec-size': ['r', 'N'],
+            'alpha': ['alpha']}[spec['problem']]
 
 
 def base_loss(pg, spec):
@@ -81,6 +90,9 @@ def base_loss(pg, spec):
         return lambda c, o: float(((np.asarray(c.sfs.mean.data) - o) ** 2).sum())
     if kind == 'sq-th':
         return lambda c, o: float((c.tree_height.mean - o[0]) ** 2 + (c.total_branch_length.mean - o[1]) ** 2)
+    if kind == 'sq-2l':
+        return lambda c, o: float((c.tree_height.mean - o[0]) ** 2 + (c.tree_height.loci.cov[0, 1] - o[1]) ** 2 +
+                                  (c.total_branch_length.mean - o[2]) ** 2)
     if kind in ('l1', 'l2', 'linf'):
         norm = {'l1': pg.L1Norm, 'l2': pg.L2Norm, 'linf': pg.LInfNorm}[kind]()
         return lambda c, o: float(norm.compute(np.asarray(c.sfs.mean.data), o))
@@ -114,6 +126,8 @@ class Problem:
         ct = build_coal(pg, spec, true)
         if spec['loss'] == 'sq-th':
             self.obs = np.array([ct.tree_height.mean, ct.total_branch_length.mean])
+        elif spec['loss'] == 'sq-2l':
+            self.obs = np.array([ct.tree_height.mean, ct.tree_height.loci.cov[0, 1], ct.total_branch_length.mean])
         else:
             self.obs = np.array(ct.sfs.mean.data, dtype=float) * spec.get('scale', 1.0)
         self.true = true
@@ -136,16 +150,22 @@ class Problem:
 
 
 def rand_spec(rng, quick):
-    problem = rng.choice(['size', 'size', 'epoch', 'two-epoch', 'mig'])
-    n = rng.randint(2, 4) if problem != 'mig' else rng.randint(2, 3)
+    problem = rng.choice(['size', 'size', 'epoch', 'two-epoch', 'mig', 'rec', 'rec-size'])
+    n = rng.randint(2, 4) if problem not in ('mig', 'rec', 'rec-size') else rng.randint(2, 3)
     nb = {'size': [(0.1, 10.0)], 'epoch': [(0.1, 10.0)], 'two-epoch': [(0.1, 10.0), (0.1, 10.0)],
-          'mig': [(0.1, 10.0), (0.05, 4.0)]}[problem]
+          'mig': [(0.1, 10.0), (0.05, 4.0)], 'rec': [(0.05, 8.0)], 'rec-size': [(0.05, 8.0), (0.1, 10.0)],
+          'alpha': [(1.05, 1.95)]}[problem]
     if rng.random() < 0.3:
         nb = [(lo, rng.choice([1.5, 2.0, 3.0])) for lo, hi in nb]        # tight upper bound: optimum may sit on it
     true = [min(max(gen.dyadic(rng, -2, 2) * rng.choice([1.0, 1.5]), lo * 1.5), hi * 0.9) for lo, hi in nb]
     if rng.random() < 0.15:
         true = [hi * 1.5 for lo, hi in nb]                                # optimum outside the box -> solution on the bound
     loss = rng.choice(['sq', 'sq', 'l1', 'l2', 'linf', 'poisson', 'poisson'] + (['sq-th'] if n >= 2 else []))
+    if problem in ('rec', 'rec-size'):
+        loss = 'sq-2l'                                                     # no SFS for two loci
+    if problem == 'alpha':
+        n = max(n, 3)
+        true = [min(max(t, 1.1), 1.9) for t in true]
     if n == 2 and loss != 'sq-th' and problem in ('two-epoch', 'mig'):
         n = 3                                                              # one SFS bin cannot identify two parameters
     x0 = None if rng.random() < 0.4 else [round(rng.uniform(lo, hi), 3) for lo, hi in nb]
@@ -250,8 +270,11 @@ def g_run(R, P, spec):
     R.check(close(l_own, l_fresh, tol, 1e-14), 'run:loss-via-get_coal', nt, expected=l_fresh, observed=l_own, params=p, tolerance=tol)
     # reported distribution
     d, f = inf.dist_inferred, P.coal(**p)
+    two_loci = spec['problem'] in ('rec', 'rec-size')
+    second = (lambda c: [float(c.tree_height.loci.cov[0, 1]), float(c.total_branch_length.var)]) if two_loci else \
+        (lambda c: np.asarray(c.sfs.mean.data))
     ok = d is not None and close(d.tree_height.mean, f.tree_height.mean, 1e-9) and \
-        all(close(x, y, 1e-9, 1e-14) for x, y in zip(np.asarray(d.sfs.mean.data), np.asarray(f.sfs.mean.data)))
+        all(close(x, y, 1e-9, 1e-14) for x, y in zip(second(d), second(f)))
     R.check(ok, 'run:dist-of-params', nt, expected=float(f.tree_height.mean), observed=None if d is None else float(d.tree_height.mean), params=p)
     e0d, e0f = d.demography.get_epoch(0), f.demography.get_epoch(0)
     R.check(dict(e0d.pop_sizes) == dict(e0f.pop_sizes) and dict(e0d.migration_rates) == dict(e0f.migration_rates),
